@@ -1515,7 +1515,10 @@ PyObject* Records::read_sfile_header(void)
     // go back to the beginning
     rewind(mFptr);
 
-	char endbuff[4]={0};
+    // the header ends with a line holding only END; the word can also
+    // occur inside the header text (values, field names), so look for
+    // the whole line
+	char endbuff[6]={0};
     size_t count=0;
 
 	while (1) {
@@ -1529,19 +1532,20 @@ PyObject* Records::read_sfile_header(void)
 
         endbuff[0] = endbuff[1];
         endbuff[1] = endbuff[2];
+        endbuff[2] = endbuff[3];
+        endbuff[3] = endbuff[4];
 
-        endbuff[2] = c;
+        endbuff[4] = c;
 
-        if (0==strncmp(endbuff,"END",3)) {
+        if (0==strncmp(endbuff,"\nEND\n",5)) {
             break;
         }
     }
 
-    // we need to add
-    // 1 for the newline character
+    // the newline after END has been consumed; we need to add
     // 1 for the empty line
 
-    count += 2;
+    count += 1;
 
     string hdr;
     hdr.resize(count);
